@@ -1,22 +1,14 @@
 #!/usr/bin/env python3
-"""cov_baseline.py [ID ...]: for each property with a source tie, run its correspondence streams at the widened size
-(what a check does when the source tie is broken) against the unchanged tree with Go's block counters and record the
-blocks of the property's anchor files that stay unexecuted (by text).  The result, coverage_baseline/<ID>.txt, is
-committed: a check with a broken source tie reports unexecuted blocks that are not in it."""
+"""cov_baseline.py: the texts of all blocks (Go coverage profile) of the library's source files on the unchanged tree,
+written to coverage_baseline/all_blocks.txt (committed).  A check whose source tie is broken reports blocks of the
+property's anchor files that its correspondence run never executed and whose text is not in this file."""
 import os, sys, glob
 sys.path.insert(0, os.path.join(os.path.dirname(os.path.abspath(__file__)), '..', 'lib'))
 import vcheck
-ids = sys.argv[1:] or sorted(set(os.path.basename(f)[:3] for f in glob.glob(os.path.join(vcheck.COQ, 'Properties', 'C*src*.v'))))
 log = open(os.path.join(vcheck.WORK, 'cov_baseline.log'), 'w')
-for pid in ids:
-    cfg = vcheck.PROPS.get(pid, {'streams': []})
-    if not cfg['streams']:
-        continue
-    vcheck.correspondence(pid, cfg['streams'], 1, 'quick', log, scale=8)
-    missed, n = vcheck.unexercised_blocks(pid, list(vcheck.LAST_CASES), log)
-    if missed is None:
-        print(pid, 'no coverage data'); continue
-    with open(os.path.join(vcheck.ROOT, 'coverage_baseline', pid + '.txt'), 'w') as f:
-        for key in sorted(set(k for _, k in missed if k)):
-            f.write(key + '\n')
-    print('%s: %d of %d blocks of %s unexecuted by %d cases' % (pid, len(missed), n, ', '.join(vcheck.anchor_files(pid)), len(vcheck.LAST_CASES)))
+files = sorted(os.path.basename(f) for f in glob.glob(os.path.join(vcheck.REPO, '*.go')) if not f.endswith('_test.go') and 'verif_hooks' not in f)
+blocks, n = vcheck.unexercised_blocks('C01', ['mod10 1'], log, all_blocks=True, files=files)
+with open(os.path.join(vcheck.ROOT, 'coverage_baseline', 'all_blocks.txt'), 'w') as f:
+    for key in sorted(set(k for _, k in blocks if k)):
+        f.write(key + '\n')
+print('%d blocks in %d files' % (n, len(files)))
